@@ -235,8 +235,13 @@ def make_rig(inst: console.Installation) -> console.ApiRig:
 
 def push_ac_status(rig, st) -> None:
     # the client forgets the error text when a changed status reports no error
-    if rig.inst.ac_status.get(st.ac_number) != st and st.error_code == 0:
-        rig.client_err[st.ac_number] = None
+    if rig.inst.ac_status.get(st.ac_number) != st:
+        if st.error_code == 0:
+            rig.client_err[st.ac_number] = None
+        elif not rig.console.manual:
+            # the client asks for the error text and the console answers with what it holds
+            text = rig.inst.errors.get(st.ac_number)
+            rig.client_err[st.ac_number] = text.encode() if text else None
     rig.inst.ac_status[st.ac_number] = st
     rig.console.push(rig.inst.ac_status_message(only={st.ac_number}))
     rig.pump()
